@@ -157,7 +157,22 @@ def ops_for(N):
 
 @st.composite
 def inits(draw):
-    cls = draw(st.sampled_from(["sty-rich", "sty-rich", "sty-free", "mixed", "long-sty"]))
+    cls = draw(st.sampled_from(["sty-rich", "sty-rich", "sty-free", "mixed", "long-sty", "to-maximiser"]))
+    if cls == "to-maximiser":
+        # a delta-maximising charge pattern in which some acidic positions are S/T/Y: phosphorylating them produces the maximiser
+        from .. import patmax
+        N = draw(st.sampled_from([6, 7, 8, 9]))
+        tab = patmax.table(N)
+        comp = draw(st.sampled_from(sorted(k for k in tab if k[0] and k[1])))
+        out = []
+        for ch in tab[comp]:
+            if ch == "+":
+                out.append(draw(st.sampled_from("KR")))
+            elif ch == "-":
+                out.append(draw(st.sampled_from("EDSTY" + "STY")))
+            else:
+                out.append(draw(st.sampled_from("GAQ")))
+        return {"seq": "".join(out)}
     if cls == "long-sty":
         return {"seq": draw(gens.exact_words("STY" * 5 + "KEG", draw(st.integers(90, 140)))), "long": True}
     n = draw(st.integers(1, 24))
